@@ -16,7 +16,7 @@ PROPS = {
                 "UDP/TCP/ICMP/other, length fields below/at/above the truth, truncation sweeps, trailing bytes, "
                 "flips, noise, all 65536 ether types) decoded by the strict slicers and by the reference decoder; "
                 "a case is non-trivial if the reference decoder got past the first header or found the fault "
-                "behind it; distinct = distinct (entry point, layer sequence, outcome class, faulty layer) signatures; engine big: the same judgement on packets whose true sizes lie around 2^16 (65535 -/+ header sizes, 65536, 70 000, 131 072: where 16 bit length arithmetic would wrap)",
+                "behind it; distinct = distinct (entry point, layer sequence, outcome class, faulty layer) signatures; engine big: the same judgement on packets whose true sizes lie around 2^16 (65535 -/+ header sizes, 65536, 70 000, 131 072: where 16 bit length arithmetic would wrap); engines bytesweep / wordsweep: one header byte of a clean packet through all 256 values, one aligned 16 bit header word through all 65 536 values",
         "assumptions": COMMON_ASSUME + [
             "reference decoder R (harness/src/refmodel/pkt.rs) is right about the wire formats; it is itself "
             "checked against the generator's recipe on every clean packet",
@@ -29,6 +29,7 @@ PROPS = {
             "entry.SlicedPacket::from_ether_type": 100, "entry.SlicedPacket::from_ip": 100,
             "error_kind.Len:*": 100, "error_kind.Content:*": 100,
             "big_cases": 5000,
+            "bytesweep_cases": 100000, "wordsweeps": 16,
         },
     },
     "C07": {
@@ -38,7 +39,7 @@ PROPS = {
                 "entry points of the 4 decoder families, the 13 IP-level entry points and the io::Read doors (IpHeaders::read, "
                 "Ipv6Extensions/Ipv4Extensions::read_limited over a LimitedReader with a random base offset); every Err / lax stop error is "
                 "compared field by field with the set of truthful reports of the reference decoder; distinct = distinct "
-                "(entry point, error class, stop layer, faulty layer kind, fault behind offset 0) signatures; engine single: 36 single-layer decoders (header structs and slice types) judged the same way; engine convert: errors of 13 slice and 8 reader entry points keep their message, innermost source and typed accessor when converted into FromSliceError / ReadError; engine big: the same judgement on packets whose true sizes lie around 2^16 (65535 -/+ header sizes, 65536, 70 000, 131 072: where 16 bit length arithmetic would wrap)",
+                "(entry point, error class, stop layer, faulty layer kind, fault behind offset 0) signatures; engine single: 36 single-layer decoders (header structs and slice types) judged the same way; engine convert: errors of 13 slice and 8 reader entry points keep their message, innermost source and typed accessor when converted into FromSliceError / ReadError; engine big: the same judgement on packets whose true sizes lie around 2^16 (65535 -/+ header sizes, 65536, 70 000, 131 072: where 16 bit length arithmetic would wrap); engines bytesweep / wordsweep: one header byte of a clean packet through all 256 values, one aligned 16 bit header word through all 65 536 values",
         "assumptions": COMMON_ASSUME + [
             "reference decoder R and its truthful-report sets (DESIGN appendix A)",
             "reporting LenSource::Slice is always accepted (the statement only constrains other sources)",
@@ -53,6 +54,7 @@ PROPS = {
             "api.c07.conversions_preserve_message": 100000, "api.c07.read_conversions_preserve_message": 100000, "entry.UdpHeader::from_slice": 10000, "entry.TcpSlice::from_slice": 10000,
             "big_cases": 5000,
             "api.c07.reader_error_accessors": 10000,
+            "bytesweep_cases": 100000, "wordsweeps": 16,
         },
     },
     "C05": {
@@ -62,7 +64,7 @@ PROPS = {
                 "IpHeaders::*_lax x3, LaxMacsecSlice, UdpSlice::from_slice_lax, Ipv6Extensions(Slice)::from_slice_lax) compared with "
                 "(a) the strict sibling on the same bytes (incl. stop error = strict error where both stop at one single-description fault) "
                 "and (b) the reference decoder in lax mode; non-trivial = decoded past "
-                "the first header or recorded a stop error; distinct = distinct (entry point, layer sequence, stop error class, stop layer); engine big: the same judgement on packets whose true sizes lie around 2^16 (65535 -/+ header sizes, 65536, 70 000, 131 072: where 16 bit length arithmetic would wrap)",
+                "the first header or recorded a stop error; distinct = distinct (entry point, layer sequence, stop error class, stop layer); engine big: the same judgement on packets whose true sizes lie around 2^16 (65535 -/+ header sizes, 65536, 70 000, 131 072: where 16 bit length arithmetic would wrap); engines bytesweep / wordsweep: one header byte of a clean packet through all 256 values, one aligned 16 bit header word through all 65 536 values",
         "assumptions": COMMON_ASSUME + [
             "reference decoder R in lax mode (DESIGN appendix B) incl. the documented relaxations (IPv4 total_len / IPv6 "
             "payload_len / MACsec short length / UDP length fall back to the slice)",
@@ -75,6 +77,7 @@ PROPS = {
             "lax.incomplete_true.Macsec": 10, "lax.incomplete_true.Ipv4": 100, "lax.incomplete_true.Ipv6": 100,
             "lax.single_agree": 1000, "stop_error_equals_strict_error": 10000,
             "big_cases": 5000,
+            "bytesweep_cases": 100000, "wordsweeps": 16,
         },
     },
     "C04": {
@@ -83,7 +86,7 @@ PROPS = {
                 "ether types) decoded by PacketHeaders and SlicedPacket (and LaxPacketHeaders / LaxSlicedPacket) from the same bytes; "
                 "headers, stop errors, verdict and remaining payload range compared; where the reference decoder's struct-mode and "
                 "slice-mode walks of the extension chain differ the struct result is judged against the struct-mode walk (computed "
-                "permitted difference); distinct = distinct (entry point, layer sequence, outcome, payload kind); engine api: the variant accessors of LinkHeader / NetHeaders / TransportHeader / NetSlice answer exactly for the variant decoded; engine big: the same judgement on packets whose true sizes lie around 2^16 (65535 -/+ header sizes, 65536, 70 000, 131 072: where 16 bit length arithmetic would wrap)",
+                "permitted difference); distinct = distinct (entry point, layer sequence, outcome, payload kind); engine api: the variant accessors of LinkHeader / NetHeaders / TransportHeader / NetSlice answer exactly for the variant decoded; engine big: the same judgement on packets whose true sizes lie around 2^16 (65535 -/+ header sizes, 65536, 70 000, 131 072: where 16 bit length arithmetic would wrap); engines bytesweep / wordsweep: one header byte of a clean packet through all 256 values, one aligned 16 bit header word through all 65 536 values",
         "assumptions": COMMON_ASSUME + [
             "the conversion image of a slicing result (observe::whole::to_header_image) mirrors what to_header() keeps: all "
             "decoded field values, none of the byte offsets",
@@ -96,6 +99,7 @@ PROPS = {
             "permitted_difference_ok": 500,
             "api.c04.net_slice_accessors": 10000, "api.c04.transport_accessors": 10000,
             "big_cases": 5000,
+            "bytesweep_cases": 100000, "wordsweeps": 16,
         },
     },
     "C06": {
@@ -105,7 +109,7 @@ PROPS = {
                 "(b) from_ethernet vs from_ether_type on the bytes behind the Ethernet II header (offsets +14) and (c) from_ether_type"
                 "(IPv4/IPv6) vs from_ip in all 4 decoder families, (d) read() from a Cursor vs from_slice() for 24 reader entry points "
                 "of 17 header types incl. cursor position; errors compared after projecting sibling layer names; equality demanded only "
-                "for single-fault inputs; distinct = distinct (rule, entry point, outcome signature); engine api: the deprecated read_from_slice doors (6 header types) and Ethernet2Header::from_bytes equal from_slice, value and rest; engine big: the same judgement on packets whose true sizes lie around 2^16 (65535 -/+ header sizes, 65536, 70 000, 131 072: where 16 bit length arithmetic would wrap); the skip walkers over a slice (Ipv6Header::skip_header_extension_in_slice / skip_all_…) against a reference walk, and their io::Read doors against them",
+                "for single-fault inputs; distinct = distinct (rule, entry point, outcome signature); engine api: the deprecated read_from_slice doors (6 header types) and Ethernet2Header::from_bytes equal from_slice, value and rest; engine big: the same judgement on packets whose true sizes lie around 2^16 (65535 -/+ header sizes, 65536, 70 000, 131 072: where 16 bit length arithmetic would wrap); the skip walkers over a slice (Ipv6Header::skip_header_extension_in_slice / skip_all_…) against a reference walk, and their io::Read doors against them; engine bytesweep: one header byte of a clean packet through all 256 values",
         "assumptions": COMMON_ASSUME + [
             "a too short slice corresponds to io::ErrorKind::UnexpectedEof of a reader",
             "rules that depend on the total slice length (ICMPv4 timestamp exact size, IP total length vs slice) are excluded when only the slice decoder can know them",
@@ -120,6 +124,7 @@ PROPS = {
             "api.c06.alias_same_error": 100000, "api.c06.alias_same_value": 100000,
             "big_cases": 5000,
             "api.c06.skip_in_slice_ok": 10000, "api.c06.skip_in_slice_rejects": 10000, "api.c06.skip_reader_same": 10000,
+            "bytesweep_cases": 100000,
         },
     },
     "C01": {
@@ -199,6 +204,7 @@ PROPS = {
             "bytes_reassembled_and_compared": 1000000,
             "datagrams.with_empty_final_fragment": 1000, "fragments.empty_inner": 1000,
             "datagrams.above_32k": 500,
+            "cuts.power_of_two_offset": 1000,
         },
     },
     "C12": {
@@ -218,6 +224,7 @@ PROPS = {
             "wrappers.net_headers_ok": 5000,
             "wrappers.ipv4_walk_and_write_agree": 1000, "wrappers.ipv6_walk_and_write_agree": 100000, "api.ok": 100000,
             "decoded_same_through_all_doors": 5000,
+            "set_next_headers_from_prelinked_ok": 1000,
         },
     },
     "C13": {
@@ -244,6 +251,7 @@ PROPS = {
             "header_slice_paths.agree": 6000000,
             "api.ok": 100000,
             "builder_options.accepted": 1000, "builder_options.replaced_earlier_options": 1000,
+            "header_owned_paths.agree": 10000,
         },
     },
     "C14": {
@@ -254,7 +262,7 @@ PROPS = {
                 "IpAuthHeader::new/set_raw_icv, Ipv6RawExtHeader::new_raw/set_payload, Ipv4Options, TcpHeader::set_options_raw, "
                 "ArpPacket::new/set_hw_addrs/set_protocol_addrs, PacketBuilder payloads for every transport x IP version); probes {0,1,limit-4..limit+4, alignment neighbours, 2^16+-2, 2^32+-2, "
                 "usize::MAX}; the true limit of each row is derived from the wire field width in the monitor; huge payloads are NORESERVE "
-                "zero mappings (accept side of the 2^32 limits in thorough only); distinct = distinct (API, below/at/above limit class); accepted IPv6 upper-layer lengths >= 2^16 must be encoded exactly: checksum through six TCP doors and ICMPv6 compared with the reference that uses the 32 bit length",
+                "zero mappings (accept side of the 2^32 limits in thorough only); distinct = distinct (API, below/at/above limit class); accepted IPv6 upper-layer lengths >= 2^16 must be encoded exactly: checksum through six TCP doors and ICMPv6 compared with the reference that uses the 32 bit length; engine tcp_elements: option element lists around the 40 octet limit incl. SACKs with holes through three doors",
         "assumptions": COMMON_ASSUME + ["huge payloads are read-only zero mappings: their content is irrelevant for the limit rules"],
         "runs": {"quick": [dict(CHK, shards=8)], "thorough": [dict(CHK, shards=8)]},
         "mandatory": {"accepted.*": 10000, "rejected.*": 10000, "macsec.unknown_fallback": 100, "macsec.encoded_exactly": 100,
@@ -263,6 +271,7 @@ PROPS = {
                       "rejected.PacketBuilder(udp/ipv6)": 200, "rejected.PacketBuilder(udp/ipv4)": 200, "rejected.PacketBuilder(tcp/ipv6)": 200,
                       "accepted.PacketBuilder(udp/ipv6)": 100, "accepted.PacketBuilder(raw/ipv4)": 20,
             "pseudo6_exact.TcpSlice::calc_checksum_ipv6": 8, "pseudo6_exact.Icmpv6Type::calc_checksum": 8,
+            "tcp_elements.sack_with_hole": 1000, "accepted.TcpOptions::try_from_elements": 1000, "rejected.TcpHeader::set_options": 1000, "rejected.PacketBuilder::tcp().options": 1000,
         },
         "min_distinct": {"accepted.*": 36, "rejected.*": 36},
     },
@@ -406,6 +415,7 @@ PROPS = {
             "bytes.accepted_by_read": 100000, "bytes.accepted_by_from_slice": 100000,
             "api.c08.arp_views": 10000, "bytes.door.TcpSlice::to_header": 1000, "bytes.door.MacsecHeaderSlice::to_header": 1000,
             "values.sll_protocol_variant.LinuxNonstandardEtherType": 1000, "values.sll_protocol_variant.NetlinkProtocolType": 1000,
+            "bytesweep_cases": 100000,
         },
         "min_distinct": {"bytes.type.*": 24, "values.type.*": 16},
     },
